@@ -1,5 +1,5 @@
-//go:build verif
-// +build verif
+//go:build verif && !race
+// +build verif,!race
 
 package netpoll
 
@@ -16,29 +16,8 @@ import (
 	"math/rand"
 	"os"
 	"strings"
+	"time"
 )
-
-func vGenByte(seed, i int) byte { return byte(((seed+1)*31 + i*7 + i/13) % 251) }
-
-func vGenBytes(seed, n, c int) []byte {
-	if c < n {
-		c = n
-	}
-	p := make([]byte, n, c)
-	for i := range p {
-		p[i] = vGenByte(seed, i)
-	}
-	return p
-}
-
-func vFnv(bs []byte) uint32 {
-	h := uint32(2166136261)
-	for _, b := range bs {
-		h ^= uint32(b)
-		h *= 16777619
-	}
-	return h
-}
 
 func vDumpLB(id int, b *UnsafeLinkBuffer) string {
 	var sb strings.Builder
@@ -115,8 +94,6 @@ func (w *vWorld) dump(ids ...int) string {
 	}
 	return strings.Join(parts, " | ")
 }
-
-func vBytesRes(p []byte) string { return fmt.Sprintf("ok b:%d:%d", len(p), vFnv(p)) }
 
 // exec runs one op line on the implementation and returns the reply line.
 func (w *vWorld) exec(toks []string) (reply string) {
@@ -504,6 +481,30 @@ func (w *vWorld) rdSize(L int) int {
 	return n
 }
 
+// vExecGuard runs one op with a watchdog: a call into the buffer that never returns (e.g. a walk over a node
+// chain that has become cyclic) is reported as "hang" and ends the process (exit code 3): the spinning
+// goroutine cannot be stopped and would disturb everything after it.
+func vExecGuard(w *vWorld, toks []string, ow, iw, ownW *bufio.Writer) string {
+	ch := make(chan string, 1)
+	go func() { ch <- w.exec(toks) }()
+	select {
+	case r := <-ch:
+		return r
+	case <-time.After(20 * time.Second):
+		fmt.Fprintln(iw, "hang")
+		if ownW != nil {
+			fmt.Fprintln(ownW, "@@  !! hang: the call never returned")
+			ownW.Flush()
+		}
+		if ow != nil {
+			ow.Flush()
+		}
+		iw.Flush()
+		os.Exit(3)
+		return "hang"
+	}
+}
+
 // VerifLBMain: lbdiff -seed S -seqs N -ops K -mode valid|malformed -ops-out F -impl-out F [-replay F]
 func VerifLBMain(args []string) int {
 	fs := flag.NewFlagSet("lbdiff", flag.ContinueOnError)
@@ -584,7 +585,7 @@ func VerifLBMain(args []string) int {
 				}
 				continue
 			}
-			rep := w.exec(toks)
+			rep := vExecGuard(w, toks, nil, iw, ownW)
 			if rep == "panic" {
 				dead = true
 			}
@@ -625,7 +626,7 @@ func VerifLBMain(args []string) int {
 			if ownW != nil {
 				ow.Flush()
 			}
-			rep := w.exec(strings.Fields(line))
+			rep := vExecGuard(w, strings.Fields(line), ow, iw, ownW)
 			fmt.Fprintln(iw, rep)
 			if ownW != nil {
 				fmt.Fprintln(ownW, strings.TrimSpace(w.own.after(w)))
